@@ -1448,6 +1448,116 @@ def gen_gaf_record():
 GENERATORS["GafRecord"] = gen_gaf_record
 
 
+# ---------------------------------------------------------------------------------------------------------
+# sort.sort: the write loop (what is appended to a record, the .gsi bookkeeping) (C09, C10)
+
+def gen_sort_write():
+    _, src = src_of("gaftools/cli/sort.py")
+    mod = ast.parse(src)
+    fn = find_func(mod, "sort")
+    loop = _only([st for st in ast.walk(fn) if isinstance(st, ast.For) and ast.unparse(st.iter) == "gaf_alignments"], "write loop of sort")
+    if ast.unparse(loop.target) != "alignment":
+        raise Untranslatable("write loop variable")
+    fmt = None
+    strips = {}
+    assign = None
+    tell_at = write_at = None
+    off_var = None
+    for i, st in enumerate(loop.body):
+        u = ast.unparse(st)
+        if u in ("off = alignment.offset", "reader.seek(off)", "reader.seek(alignment.offset)", "line = reader.readline()"):
+            continue
+        if isinstance(st, ast.If) and u.startswith("if isinstance(line, bytes)"):
+            # bytes / str / else raise
+            b1 = [ast.unparse(x) for x in st.body]
+            strips["bytes"] = {"line = line.decode('utf-8').rstrip()": "true", "line = line.decode('utf-8')": "false"}.get(b1[0] if len(b1) == 1 else "")
+            nxt = st.orelse[0] if len(st.orelse) == 1 and isinstance(st.orelse[0], ast.If) else None
+            if nxt is None or ast.unparse(nxt.test) != "isinstance(line, str)":
+                raise Untranslatable("write loop: str branch")
+            b2 = [ast.unparse(x) for x in nxt.body]
+            strips["str"] = {"line = line.rstrip()": "true", "pass": "false"}.get(b2[0] if len(b2) == 1 else "")
+            if strips["bytes"] is None or strips["str"] is None:
+                raise Untranslatable("write loop: strip branches %s %s" % (b1, b2))
+            continue
+        if isinstance(st, ast.AugAssign) and ast.unparse(st.target) == "line" and isinstance(st.value, ast.BinOp) and isinstance(st.value.op, ast.Mod):
+            if not (isinstance(st.value.left, ast.Constant) and isinstance(st.value.right, ast.Tuple)):
+                raise Untranslatable("suffix format")
+            args = [ast.unparse(a) for a in st.value.right.elts]
+            if any(not a.startswith("alignment.") for a in args):
+                raise Untranslatable("suffix arguments %s" % args)
+            fmt = (st.value.left.value, [a[len("alignment."):] for a in args])
+            continue
+        if isinstance(st, ast.If) and ast.unparse(st.test) == "index_file is not None":
+            tell_at = i
+            b = st.body
+            if not (len(b) == 2 and isinstance(b[0], ast.Assign) and ast.unparse(b[0].value) == "writer.tell()" and isinstance(b[1], ast.If)):
+                raise Untranslatable("index bookkeeping shape")
+            off_var = ast.unparse(b[0].targets[0])
+            t = ast.unparse(b[1].test)
+            if t not in ("index_dict[alignment.sn][0] is None", "index_dict[alignment.sn][0] is not None"):
+                raise Untranslatable("index test: %s" % t)
+
+            def sets(stmts):
+                f = l = False
+                for x in stmts:
+                    ux = ast.unparse(x)
+                    if ux == "index_dict[alignment.sn][0] = %s" % off_var:
+                        f = True
+                    elif ux == "index_dict[alignment.sn][1] = %s" % off_var:
+                        l = True
+                    else:
+                        raise Untranslatable("index assignment: %s" % ux)
+                return "(%s, %s)" % ("true" if f else "false", "true" if l else "false")
+            yes, no = sets(b[1].body), sets(b[1].orelse)
+            if t.endswith("is not None"):
+                yes, no = no, yes
+            assign = "if firstIsNone then %s else %s" % (yes, no)
+            continue
+        if u == "write_to_file(line, writer)":
+            write_at = i
+            continue
+        raise Untranslatable("write loop statement: %s" % u[:70])
+    if fmt is None or assign is None or write_at is None or not strips:
+        raise Untranslatable("write loop parts missing")
+    popped = None
+    for st in ast.walk(fn):
+        if isinstance(st, ast.Expr) and isinstance(st.value, ast.Call) and ast.unparse(st.value.func) == "index_dict.pop":
+            a = st.value.args
+            if not (a and isinstance(a[0], ast.Constant) and isinstance(a[0].value, str)):
+                raise Untranslatable("index_dict.pop argument")
+            if popped is not None:
+                raise Untranslatable("two pops")
+            popped = a[0].value
+    if popped is None:
+        raise Untranslatable("index_dict.pop not found")
+    # the initial value of an entry
+    rfn = find_func(mod, "run_sort")
+    init = [ast.unparse(st.value) for st in rfn.body if isinstance(st, ast.Assign) and ast.unparse(st.targets[0]) == "index_dict"]
+    if init != ["defaultdict(lambda: [None, None])"]:
+        raise Untranslatable("index_dict initialisation: %s" % init)
+
+    def sfmt(f):
+        return '"%s"' % f.replace("\\", "\\\\").replace('"', '\\"').replace("\t", "\\t").replace("\n", "\\n")
+    return ("/-! generated by harness/translate.py from gaftools/cli/sort.py : the write loop of sort() — do not edit -/\n"
+            "namespace Gaftools.Gen\n"
+            "/-- what is appended to the right-stripped raw record, and the attributes printed -/\n"
+            "def sortSuffixFormat : String := %s\ndef sortSuffixArgs : List String := [%s]\n"
+            "/-- the raw record is right-stripped in the bytes (BGZF) and in the text branch -/\n"
+            "def sortStripsBytes : Bool := %s\ndef sortStripsStr : Bool := %s\n"
+            "/-- `.gsi` bookkeeping for the record's contig: (assign first, assign last), from whether `first` is still `None`\n"
+            "    (a fresh entry of the defaultdict is `[None, None]`) -/\n"
+            "def gsiAssign (firstIsNone : Bool) : Bool × Bool := %s\n"
+            "/-- the offset is taken (`writer.tell()`) before the record is written -/\n"
+            "def gsiTellBeforeWrite : Bool := %s\n"
+            "/-- the key removed before the index is pickled -/\n"
+            "def gsiPopped : String := %s\nend Gaftools.Gen\n" % (
+                sfmt(fmt[0]), ", ".join('"%s"' % a for a in fmt[1]), strips["bytes"], strips["str"], assign,
+                "true" if tell_at < write_at else "false", sfmt(popped)))
+
+
+GENERATORS["SortWrite"] = gen_sort_write
+
+
 def regenerate(only=None):
     """returns {name: {"tie": "A"|"B-only", "detail": str, "changed": bool}}"""
     os.makedirs(GEN, exist_ok=True)
@@ -1473,6 +1583,23 @@ def regenerate(only=None):
 
 
 FALLBACK = {
+    "SortWrite": """/-! FALLBACK (source construct outside the translator's subset): the write loop of sort() as modelled by hand -/
+namespace Gaftools.Gen
+/-- what is appended to the right-stripped raw record, and the attributes printed -/
+def sortSuffixFormat : String := "\\tbo:i:%d\\tsn:Z:%s\\tiv:i:%d\\n"
+def sortSuffixArgs : List String := ["BO", "sn", "inv"]
+/-- the raw record is right-stripped in the bytes (BGZF) and in the text branch -/
+def sortStripsBytes : Bool := true
+def sortStripsStr : Bool := true
+/-- `.gsi` bookkeeping for the record's contig: (assign first, assign last), from whether `first` is still `None`
+    (a fresh entry of the defaultdict is `[None, None]`) -/
+def gsiAssign (firstIsNone : Bool) : Bool × Bool := if firstIsNone then (true, true) else (false, true)
+/-- the offset is taken (`writer.tell()`) before the record is written -/
+def gsiTellBeforeWrite : Bool := true
+/-- the key removed before the index is pickled -/
+def gsiPopped : String := "unknown"
+end Gaftools.Gen
+""",
     "GafRecord": """import Gaftools.Model.Gaf
 /-! FALLBACK (source construct outside the translator's subset): the record text layer as modelled by hand -/
 namespace Gaftools.Gen
